@@ -27,6 +27,9 @@ def _immutable_literal(e):
         return all(_immutable_literal(x) for x in e.elts)
     if isinstance(e, ast.Call) and isinstance(e.func, ast.Name) and e.func.id == "frozenset" and len(e.args) == 1 and not e.keywords:
         return _literal(e.args[0])
+    # a bound method of a compiled struct format (`Struct('<f').pack`)
+    if isinstance(e, ast.Attribute) and e.attr in ("pack", "unpack", "unpack_from", "pack_into", "size") and isinstance(e.value, ast.Call) and _immutable_literal(e.value) and not isinstance(e.value.func, ast.Name) is False and ((isinstance(e.value.func, ast.Name) and e.value.func.id == "Struct") or (isinstance(e.value.func, ast.Attribute) and e.value.func.attr == "Struct")):
+        return True
     # a compiled struct format: an immutable value determined by its format string
     if isinstance(e, ast.Call) and ((isinstance(e.func, ast.Name) and e.func.id == "Struct") or (isinstance(e.func, ast.Attribute) and e.func.attr == "Struct" and isinstance(e.func.value, ast.Name) and e.func.value.id == "struct")) and len(e.args) == 1 and not e.keywords and isinstance(e.args[0], ast.Constant):
         return True
